@@ -1,6 +1,7 @@
 import Kopf.Drv.Json
 import Kopf.Model.C12_Request
 import Kopf.Model.C12_Throttle
+import Kopf.Model.C12_Process
 import Kopf.Model.C12_Vault
 open Lean
 namespace Kopf.Drv.C12
@@ -221,6 +222,24 @@ def handle : DrvHandler := fun op args =>
         some (⟨k, t, ci.1⟩ : Event))
       let r := runProduct cfg (fun _ => Throttler.fresh) evs
       some (ok (.arr (r.2.map (fun p => Json.arr #[jInt p.1, cycleOutJ p.2])).toArray))
+  | "C12.object", [cfg, delays, passes] => do
+      -- the cycles of one object that ran an API call each (part S): start time, the fault script the call
+      -- met, the wake-up into the pause; from a fresh throttler
+      let bo ← backoffsOf? (← jField? cfg "backoffs")
+      let enforce ← jBool? (← jField? cfg "enforce")
+      let dl ← delaysOf? delays
+      let ps ← (← jArr? passes).mapM (fun p => do
+        let t ← jInt? (← jField? p "t")
+        let script ← (← jArr? (← jField? p "script")).mapM attOf?
+        let w2 ← jOpt? jNat? (← jField? p "wake2")
+        some (t, script, (none : Option Nat), w2))
+      let outs := processCycles bo enforce dl Throttler.fresh ps
+      some (ok (.arr (outs.map (fun o => Json.mkObj [
+        ("times", match o.run with | some r => jInts r.times | none => .null),
+        ("outcome", match o.run with | some r => outcomeJ r.outcome | none => .null),
+        ("fin", match o.run with | some r => jInt r.fin | none => .null),
+        ("activated", jOptInt o.out.activated), ("escaped", .str (escStr o.out.escaped)),
+        ("until", jOptInt o.out.st.activeUntil)])).toArray))
   | "C12.vault", [src, keys, reqs, labels] => do
       let src ← srcOf? src
       let keys ← (← jArr? keys).mapM jNat?
